@@ -15,8 +15,6 @@ import (
 	"fmt"
 	"testing"
 
-	"github.com/ontio/ontology-crypto/ec"
-	"github.com/ontio/ontology-crypto/keypair"
 	"github.com/ontio/ontology/common"
 	"github.com/ontio/ontology/core/types"
 	"pgregory.net/rapid"
@@ -28,7 +26,6 @@ import (
 const (
 	c16KeyDup   = "duplicate-key-in-multisig-counts-twice"
 	c16KeyRecID = "eth-signature-recovery-byte-ignored"
-	c16KeyPanic = "keccak-short-signature-panics"
 )
 
 const c16Rule = "txs with 1..16 signature sets (single key or m-of-n, n<=16) over the key zoo (P-224/256/384/521 ECDSA, SM2, Ed25519, ethereum secp256k1), " +
@@ -80,7 +77,8 @@ func witnessRecID() (fails bool, detail string, raw []byte) {
 	return v.Accepted, fmt.Sprintf("ethereum-type key %s, signature byte %d of %d (recovery id) xor 5a: validator %v", keyName(E), lay.SigData[0].To-1-lay.SigData[0].From, lay.SigData[0].To-lay.SigData[0].From, v), raw
 }
 
-// witnessShortKeccak: single ethereum-type key; signature = 0b 01 02 03.
+// witnessShortKeccak: single ethereum-type key; signature = 0b 01 02 03. Regression witness of the repaired
+// defect "short KECCAK256 signature panics the validator" (fix ff49a5ba in core/signature): never excluded.
 func witnessShortKeccak() (fails bool, detail string, raw []byte) {
 	E := fix.Key(fix.KEth, 0)
 	s := &setSpec{M: 1, Keys: []keyItem{{Z: E}}, Sigs: []sigItem{{Data: []byte{0x0b, 1, 2, 3}}}}
@@ -91,15 +89,39 @@ func witnessShortKeccak() (fails bool, detail string, raw []byte) {
 	return v.Panic != "", fmt.Sprintf("ethereum-type key %s with signature 0b010203: validator %v", keyName(E), v), raw
 }
 
-type c16Known struct{ dup, recID, panics bool }
+// witnessOffCurve: a single-key script pushing an UNCOMPRESSED point that is not on its curve (Y xor 1).
+// Variant A: NIST-curve key + SM3withSM2-scheme signature (r=s=1); variant B: SM2 key + ECDSA-scheme signature.
+// Go's elliptic operations panic on invalid points; the key decoder does not check curve membership.
+// Regression witness of the repaired defect "off-curve key panics the validator" (fix 27c9fb98 in core/signature): never excluded.
+func witnessOffCurve() (fails bool, detail string, raw []byte) {
+	one := make([]byte, 32)
+	one[31] = 1
+	type v struct {
+		z   *fix.ZooKey
+		sig []byte
+	}
+	for _, w := range []v{{fix.Key(fix.KP256, 0), append(append([]byte{0x09, 0x00}, one...), one...)},
+		{fix.Key(fix.KSM2, 0), append(append([]byte{0x01}, one...), one...)}} {
+		kb := append([]byte{}, encodeKey(w.z, encUncompressed, nil)...)
+		kb[len(kb)-1] ^= 1
+		s := &setSpec{M: 1, Keys: []keyItem{{Z: w.z, Raw: kb}}, Sigs: []sigItem{{Data: w.sig}}}
+		tx := &txSpec{Body: witnessBody(), Sets: []*setSpec{s}}
+		raw, _ = tx.raw()
+		if r := runValidator(raw); r.Panic != "" {
+			return true, fmt.Sprintf("single-key script pushing off-curve uncompressed %s key %x with signature %x: validator %v", w.z.Kind, kb, w.sig, r), raw
+		}
+	}
+	return false, "no panic", raw
+}
+
+type c16Known struct{ dup, recID bool }
 
 // c16Replay replays the witnesses; a class is excluded only when its finding is listed AND still reproduces.
 func c16Replay() c16Known {
 	fix.Quiet()
 	d, _, _ := witnessDupKey()
 	r, _, _ := witnessRecID()
-	p, _, _ := witnessShortKeccak()
-	return c16Known{dup: harn.Known("C16", c16KeyDup, d), recID: harn.Known("C16", c16KeyRecID, r), panics: harn.Known("C16", c16KeyPanic, p)}
+	return c16Known{dup: harn.Known("C16", c16KeyDup, d), recID: harn.Known("C16", c16KeyRecID, r)}
 }
 
 func TestC16_KnownWitnesses(t *testing.T) {
@@ -109,14 +131,17 @@ func TestC16_KnownWitnesses(t *testing.T) {
 		key string
 		f   func() (bool, string, []byte)
 	}
-	for _, x := range []w{{c16KeyDup, witnessDupKey}, {c16KeyRecID, witnessRecID}, {c16KeyPanic, witnessShortKeccak}} {
+	for _, x := range []w{{c16KeyDup, witnessDupKey}, {c16KeyRecID, witnessRecID},
+		{"regression-off-curve-key-panic", witnessOffCurve}, {"regression-short-keccak-signature-panic", witnessShortKeccak}} {
 		x := x
-		t.Run(x.key, func(t *testing.T) {
+		name := x.key
+		regression := len(name) > 11 && name[:11] == "regression-"
+		t.Run(name, func(t *testing.T) {
 			fails, detail, raw := x.f()
-			ev.Case(true, "witness:"+x.key)
-			ev.Class(fmt.Sprintf("witness:%s:fails=%v", x.key, fails))
-			if fails && !harn.Known("C16", x.key, true) {
-				harn.Violation(t, "C16", map[string]string{"witness": x.key, "raw_tx": fmt.Sprintf("%x", raw)}, "%s", detail)
+			ev.Case(true, "witness:"+name)
+			ev.Class(fmt.Sprintf("witness:%s:fails=%v", name, fails))
+			if fails && (regression || !harn.Known("C16", x.key, true)) {
+				harn.Violation(t, "C16", map[string]string{"witness": name, "raw_tx": fmt.Sprintf("%x", raw)}, "%s", detail)
 			}
 		})
 	}
@@ -134,52 +159,12 @@ func isRecIDMutation(tx *txSpec, m byteMut) bool {
 	return g.Signer != nil && g.Signer.Kind == fix.KEth && len(g.Data) == 66 && g.Data[0] == 0x0b
 }
 
-// hasShortKeccakForEthKey: some set lists an ethereum-type key and its invocation script pushes an item
-// 0x0b || fewer than 63 further bytes (total length 2..63), which ontology-crypto slices to [:64].
-func hasShortKeccakForEthKey(raw []byte) bool {
-	tx, err := parseEnvelope(raw)
-	if err != nil {
-		return false
-	}
-	for _, st := range tx.Sets {
-		pv, err := parseVerify(st.Verify)
-		if err != nil {
-			continue
-		}
-		eth := false
-		for _, kb := range pv.Keys {
-			if k, err := keypair.DeserializePublicKey(kb); err == nil {
-				if _, ok := k.(*ec.EthereumPublicKey); ok {
-					eth = true
-				}
-			}
-		}
-		if !eth {
-			continue
-		}
-		toks, ok := parsePushes(st.Invoke)
-		if !ok {
-			continue
-		}
-		for _, tk := range toks {
-			if !tk.IsNum && len(tk.Data) >= 2 && len(tk.Data) <= 64 && len(tk.Data) != 64 && tk.Data[0] == 0x0b {
-				return true
-			}
-		}
-	}
-	return false
-}
-
 // ---------------------------------------------------------------------------------------------
 // shared evaluation
 
 // judge applies oracle (A) to one transaction; returns the verdict. excluded=true when the case falls into a known class.
 func judge(t *rapid.T, ev *harn.Collector, kn c16Known, raw []byte, what string) (v verdict, excluded bool) {
 	if kn.dup && hasDuplicateKeyScript(raw) {
-		ev.Excluded()
-		return v, true
-	}
-	if kn.panics && hasShortKeccakForEthKey(raw) {
 		ev.Excluded()
 		return v, true
 	}
@@ -284,7 +269,7 @@ func TestC16_ByteSubstitutions(t *testing.T) {
 	ev.Floor("base:kind:SM2", "base", 0.1)
 	ev.Floor("base:kind:Ed25519", "base", 0.1)
 	ev.Floor("base:has-m<n", "base", 0.15)
-	harn.Check(t, 450, 14000, func(t *rapid.T) {
+	harn.Check(t, 400, 3000, func(t *rapid.T) {
 		tx := genValidTx(t)
 		raw, lay := tx.raw()
 		selfCheckCanonical(t, tx, raw)
@@ -300,7 +285,7 @@ func TestC16_ByteSubstitutions(t *testing.T) {
 		nm := 10
 		for i := 0; i < nm; i++ {
 			var m byteMut
-			switch rapid.IntRange(0, 9).Draw(t, "mutClass") {
+			switch uniR(t, 0, 9, "mutClass") {
 			case 0, 1, 2, 3:
 				m = genUnsignedMut(t, lay)
 			case 4:
@@ -350,7 +335,7 @@ func TestC16_StructuralEdits(t *testing.T) {
 	}
 	ev.Floor("struct:accepted", "struct", 0.15)
 	ev.Floor("struct:rejected", "struct", 0.15)
-	harn.Check(t, 450, 14000, func(t *rapid.T) {
+	harn.Check(t, 320, 2400, func(t *rapid.T) {
 		tx := genValidTx(t)
 		raw, _ := tx.raw()
 		desc := tx.describe()
@@ -362,12 +347,12 @@ func TestC16_StructuralEdits(t *testing.T) {
 		for i := 0; i < 8; i++ {
 			mtx := tx.clone()
 			depth := 1
-			if rapid.IntRange(0, 3).Draw(t, "stack") == 0 {
+			if uniR(t, 0, 3, "stack") == 0 {
 				depth = 2 // two edits on top of each other
 			}
 			var applied string
 			for d := 0; d < depth; d++ {
-				start := rapid.IntRange(0, len(structMuts)-1).Draw(t, "edit")
+				start := uniR(t, 0, len(structMuts)-1, "edit")
 				for k := 0; k < len(structMuts); k++ {
 					sm := structMuts[(start+k)%len(structMuts)]
 					if how := sm.Apply(t, mtx); how != "" {
@@ -404,7 +389,7 @@ func TestC16_InvalidBases(t *testing.T) {
 	ev := c16Ev()
 	kn := c16Replay()
 	ev.Floor("invalid:rejected", "invalid", 0.5)
-	harn.Check(t, 500, 16000, func(t *rapid.T) {
+	harn.Check(t, 600, 4800, func(t *rapid.T) {
 		tx := &txSpec{Body: genBody(t)}
 		ns := genNSets(t)
 		if ns > 6 {
@@ -413,12 +398,12 @@ func TestC16_InvalidBases(t *testing.T) {
 		for i := 0; i < ns; i++ {
 			tx.Sets = append(tx.Sets, genSet(t, fmt.Sprintf("set%d", i), 6))
 		}
-		pi := rapid.IntRange(0, ns-1).Draw(t, "payerSet")
+		pi := uniR(t, 0, ns-1, "payerSet")
 		tx.Payer = specSetAddress(tx.Sets[pi])
 		tx.Note = fmt.Sprintf("set%d", pi)
 		ps := tx.Sets[pi]
 		var how string
-		defect := rapid.IntRange(0, 7).Draw(t, "defect")
+		defect := uniR(t, 0, 7, "defect")
 		tag := [...]string{"payer-nonsigner", "payer-random", "payer-related", "m-1-sigs", "one-key-signs-m-times", "key-listed-m-times", "outsider-sig", "empty-invocation"}[defect]
 		switch defect {
 		case 0: // payer = account of a key that signs nothing
@@ -493,7 +478,7 @@ func TestC16_InvalidBases(t *testing.T) {
 			}
 		case 6: // one signature by an outsider
 			_, s := pickSet(t, tx, anySet)
-			gi := rapid.IntRange(0, len(s.Sigs)-1).Draw(t, "sig")
+			gi := uniR(t, 0, len(s.Sigs)-1, "sig")
 			s.Sigs[gi] = sigItem{Signer: outsider(t, s)}
 			how = "outsider signature in " + s.describe()
 		default: // member of another kind signs with the right key but one set has no signature at all
